@@ -422,7 +422,8 @@ def r4_restriction_argument(ctx, chk, rule="C02.4"):
     cs = [e for e in L.effects if e[1] == "call" and e[2][0] == "mcall" and e[2][2] == "prune_paths_reachability"]
     st = ("elem", L.id)
     idx_ok = (("pos", L.id), ("attr", st, "idx"))
-    if L.source != slist or not L.whole or L.has_break or L.has_return or L.cont != FALSE or len(cs) != 1:
+    # (a `continue` skips the rest of one iteration, not a state: what it skips shows in the condition of the call below)
+    if L.source != slist or not L.whole or L.has_break or L.has_return or len(cs) != 1:
         chk.violation(rule, g.where(L.node), "prune_reachability does not restrict every Player-1 state of the whole list", expected="for idx, state in enumerate(self.state_list)",
                       found=norm_stmt(L.node), construct="prune_reachability coverage")
         return
